@@ -1,4 +1,4 @@
-import GdVerif.Lemmas.Gs3Exchange
+import GdVerif.Lemmas.Gs3Whole
 /-
   C08 (GameSpy 3) — `splitnum` packets: the response does not depend on the order of arrival; a
   packet that arrives twice gives an error or the same response.
@@ -56,57 +56,34 @@ theorem C08_gs3_duplicate (ps : List Bytes) (hne : ps ≠ []) (hpay : ∀ p ∈ 
   · exact Or.inl hok
   · exact Or.inr herr
 
-/-- The SPEC's data packets, received in the client's 2048-byte buffer, are exactly the packets
-`frags` of the SPEC's payloads. -/
-theorem C08_gs3_wire_packets (unknown : List Nat) (total : Nat) (ps : List Bytes) (i : Nat)
-    (hcount : i + ps.length ≤ 128)
-    (hsize : ∀ d ∈ Spec.packetsFrom unknown total i ps, d.length ≤ PACKET_SIZE) :
-    (Spec.packetsFrom unknown total i ps).map decodeFrag = (fragsFrom total i ps).map .ok := by
-  induction ps generalizing i with
-  | nil => rfl
-  | cons p r ih =>
-    simp only [Spec.packetsFrom, fragsFrom, List.map_cons, List.length_cons] at hsize hcount ⊢
-    rw [decodeFrag_dataPacket i (by omega) _ _ p (hsize _ (by simp)), ih (i + 1) (by omega) (fun d hd => hsize d (by simp [hd]))]
-
 /-- On the wire: the receive loop on a UDP socket whose queue holds the SPEC's data packets of a
 well-formed reply in ANY order returns the SPEC's payloads, as it does for in-order arrival. -/
-theorem C08_gs3_wire_any_order (cfg : Spec.Config) (st : Spec.State)
-    (hcount : (Spec.payloads cfg st).length ≤ 128) (hpay : ∀ p ∈ Spec.payloads cfg st, p ≠ [])
-    (hsize : ∀ d ∈ Spec.dataPackets cfg st, d.length ≤ PACKET_SIZE)
-    (arrival : List Bytes) (h : arrival.Perm (Spec.dataPackets cfg st))
+theorem C08_gs3_wire_any_order (cfg : Spec.Config) (st : Spec.State) (h : Spec.wf cfg st = true)
+    (arrival : List Bytes) (harr : arrival.Perm (Spec.dataPackets cfg st))
     (s : Sock) (hudp : s.tcp = false) (w : Net) (hq : w.conns.getD s.id [] = arrival.map .data) :
     (recvAll s w).1 = .ok (Spec.payloads cfg st) := by
-  have hne : Spec.payloads cfg st ≠ [] := by
-    unfold Spec.payloads; split <;> simp
+  obtain ⟨hcount, hpay, hsize, _, _⟩ := wf_wire cfg st h
   unfold recvAll
   have hlen : (w.conns.getD s.id []).length = arrival.length := by rw [hq]; simp
   rw [recvPackets_result s hudp arrival _ _ w hq (by simp only [queued]; omega)]
-  -- the decoded arrivals are a permutation of the response's packets
-  have hdec : (arrival.map decodeFrag).Perm ((frags (Spec.payloads cfg st)).map .ok) := by
-    have := h.map decodeFrag
-    rwa [Spec.dataPackets, C08_gs3_wire_packets _ _ _ 0 (by omega) hsize] at this
-  -- hence each is `.ok` of a packet
-  have hall : ∀ r ∈ arrival.map decodeFrag, ∃ f, r = .ok f := by
-    intro r hr
-    obtain ⟨f, _, rfl⟩ := List.mem_map.mp (hdec.subset hr)
-    exact ⟨f, rfl⟩
-  have hex : ∀ (l : List (Res Frag)), (∀ r ∈ l, ∃ f, r = .ok f) → ∃ L : List Frag, l = L.map .ok := by
-    intro l
-    induction l with
-    | nil => intro _; exact ⟨[], rfl⟩
-    | cons r t ih =>
-      intro hl
-      obtain ⟨f, rfl⟩ := hl r (by simp)
-      obtain ⟨L, rfl⟩ := ih (fun r hr => hl r (by simp [hr]))
-      exact ⟨f :: L, rfl⟩
-  obtain ⟨L, hL⟩ := hex _ hall
-  rw [hL] at hdec ⊢
-  have hperm : L.Perm (frags (Spec.payloads cfg st)) := by
-    have hg := hdec.map (fun r : Res Frag => match r with
-      | .ok f => f
-      | _ => ⟨0, false, []⟩)
-    simpa [List.map_map, Function.comp_def] using hg
-  exact C08_gs3_any_order _ hne hpay L hperm
+  exact feed_arrival cfg st hcount hpay hsize arrival harr
+
+/-- Lifted to the whole query: against the SPEC's server for a well-formed state, every arrival order
+of the data packets gives the same result as in-order arrival (namely the expected response). -/
+theorem C08_gs3_query_any_order (cfg : Spec.Config) (st : Spec.State) (h : Spec.wf cfg st = true) (port retries : Nat)
+    (arrival : List Bytes) (harr : arrival.Perm (Spec.dataPackets cfg st)) :
+    (query port retries (Net.init [.opened ((Spec.handshakeReply cfg.challenge :: arrival).map .data)] [])).1
+      = (query port retries (Net.init [.opened ((Spec.script cfg st).map .data)] [])).1 := by
+  rw [query_eq, (exchange_spec cfg st h port retries buildResponse arrival harr).1]
+  exact (exchange_spec cfg st h port retries buildResponse _ (List.Perm.refl _)).1.symm
+
+/-- and likewise `query_vars` -/
+theorem C08_gs3_query_vars_any_order (cfg : Spec.Config) (st : Spec.State) (h : Spec.wf cfg st = true) (port retries : Nat)
+    (arrival : List Bytes) (harr : arrival.Perm (Spec.dataPackets cfg st)) :
+    (queryVars port retries (Net.init [.opened ((Spec.handshakeReply cfg.challenge :: arrival).map .data)] [])).1
+      = (queryVars port retries (Net.init [.opened ((Spec.script cfg st).map .data)] [])).1 := by
+  rw [queryVars_eq, (exchange_spec cfg st h port retries buildVars arrival harr).1]
+  exact (exchange_spec cfg st h port retries buildVars _ (List.Perm.refl _)).1.symm
 
 -- non-vacuity: three packets arriving as 2 (flagged last), 0, 1
 example : feed Acc.init ([⟨2, true, [7]⟩, ⟨0, false, [5]⟩, ⟨1, false, [6]⟩].map .ok) = .ok [[5], [6], [7]] := by
